@@ -50,6 +50,7 @@ def run(ctx):
   repo = ctx.repo
   rule_empty(ctx)
   rule_null(ctx)
+  rule_optional_args(ctx)
   rule_nonempty_dict(ctx)
   rule_bool(ctx)
   rule_window(ctx)
@@ -85,7 +86,7 @@ def run(ctx):
   ctx.expect("R-C18-ALIGN", 9, "four Check bodies consuming a batched search + BatchGCD one result per input")
   ctx.expect("R-C18-WINDOW", 1, "one windowed lattice call")
   ctx.expect("R-C18-EMPTY", 24 + 3, "24 Check bodies + 3 entry points")
-  ctx.expect("R-C18-NULL", 7, "seven draws from CURVE_FACTORY")
+  ctx.expect("R-C18-NULL", 10, "seven draws from CURVE_FACTORY + optional constructor arguments")
   ctx.expect("R-C18-BOOL", 24, "24 Check bodies")
 
 
@@ -878,4 +879,58 @@ def rule_attrs(ctx, R="R-C18-ATTRS", scope="C18"):
               bad.append("self.%s read in %s (line %d) is bound neither by the constructor's top level nor by the class" % (x.attr, mname, x.lineno))
       ctx.record(R, "%s:%s" % (m.short, cname), "attributes read through self exist", not bad, "; ".join(sorted(set(bad))[:4]) or
                  ("base class outside the repository: not decided" if opaque else "%d attributes / methods known from the class, its bases and __init__" % len(known)))
+  return n
+
+
+def rule_optional_args(ctx):
+  """A constructor parameter that defaults to None and is kept in an attribute the methods dereference (`self._storage.GetUnseededRands(..)`) must be
+  replaced by a real object when it is None: the stored value is `param or Default()` (or an equivalent conditional), never the bare parameter."""
+  R = "R-C18-NULL"
+  repo = ctx.repo
+  n = 0
+  for m in sorted(repo.modules.values(), key=lambda m_: m_.short):
+    if m.short.startswith("data.") or defined_scope(m.short) != "C18":
+      continue
+    for cname, c in sorted(m.classes.items()):
+      init = c.methods.get("__init__")
+      if init is None:
+        continue
+      opt = [p_ for p_ in init.params() if isinstance(init.default_of(p_), ast.Constant) and init.default_of(p_).value is None]
+      if not opt:
+        continue
+      selfname = init.node.args.args[0].arg
+      deref = set()
+      for meth in c.methods.values():
+        sn = meth.node.args.args[0].arg if meth.node.args.args else None
+        for x in ast.walk(meth.node):
+          if isinstance(x, ast.Attribute) and isinstance(x.value, ast.Attribute) and isinstance(x.value.value, ast.Name) and x.value.value.id == sn:
+            deref.add(x.value.attr)
+      w = sym.Walker(repo, init)
+      w.run()
+      for e in w.events:
+        if e.kind != "setattr" or e.data["attr"] not in deref:
+          continue
+        v = e.data["value"]
+        mentions = [p_ for p_ in opt if ("param('%s')" % p_) in repr(v)]
+        if not mentions:
+          continue
+        n += 1
+        safe = False
+        if isinstance(v, tuple) and v and v[0] == "or" and len(v[1]) >= 2:
+          last = v[1][-1]
+          safe = isinstance(last, tuple) and last[0] == "truthy" and isinstance(last[1], Poly) and last[1].as_atom() is not None and last[1].as_atom().kind in ("call", "extcall") and not any(("param('%s')" % p_) in repr(last) for p_ in opt)
+        elif isinstance(v, Poly) and v.as_atom() is not None and v.as_atom().kind == "ite":
+          a_ = v.as_atom()
+          cnd = sym.ITE_CONDS.get(as_poly(a_.args[0]).as_atom().args[0]) if as_poly(a_.args[0]).as_atom() is not None else None
+          # `p if p is not None else D()` / `D() if p is None else p`
+          txt = repr(cnd)
+          safe = cnd is not None and any(("param('%s')" % p_) in txt for p_ in mentions) and any(isinstance(x_, Poly) and x_.as_atom() is not None and x_.as_atom().kind in ("call", "extcall") for x_ in (as_poly(a_.args[1]), as_poly(a_.args[2])))
+        elif isinstance(v, Poly) and not any(v == P("param", p_) for p_ in mentions):
+          # rebound before the store (if p is None: p = D())
+          safe = any(fc[0] == "cmp" and fc[1] in ("IsNot", "NotEq") and isinstance(fc[2], Poly) and any(fc[2] == P("param", p_) for p_ in mentions) for fc in e.state.facts) or "param(" not in repr(v)
+        if isinstance(v, Poly) and any(v == P("param", p_) for p_ in mentions):
+          safe = any(fc[0] == "cmp" and fc[1] in ("IsNot", "NotEq") and isinstance(fc[2], Poly) and fc[2] == v and isinstance(fc[3], Const) and fc[3].v is None for fc in e.state.facts) or \
+              any(fc[0] == "truthy" and isinstance(fc[1], Poly) and fc[1] == v for fc in e.state.facts)
+        ctx.record(R, "%s:%s.__init__" % (m.short, cname), "self.%s from optional %s" % (e.data["attr"], "/".join(mentions)), safe,
+                   "a default object replaces None" if safe else "self.%s may be None (stored value %r) although methods dereference it" % (e.data["attr"], v))
   return n
